@@ -129,24 +129,34 @@ func (g *vPwWorld) step(a map[string]interface{}) map[string]interface{} {
 	case "expire":
 		var jws string
 		if st.db.QueryRow("select jws_data from expiring_signed_user_data where username = ? and type = 1", u).Scan(&jws) == nil {
-			cl := vPayload(jws)
 			past := time.Now().Unix() - 10
-			cl["exp"], cl["iat"], cl["nbf"] = past, past-96*3600, past-96*3600
-			st.db.Exec("update expiring_signed_user_data set jws_data = ?, expiration_epoch = ? where username = ? and type = 1", vResign("ours", cl), past, u)
+			_, verr := st.getStorageDataFromStorageStringDataJWT(jws)
+			if verr == nil || strings.Contains(verr.Error(), "invalid JWT values") {
+				cl := vPayload(jws)
+				cl["exp"], cl["iat"], cl["nbf"] = past, past-96*3600, past-96*3600
+				jws = vResign("ours", cl)
+			}
+			st.db.Exec("update expiring_signed_user_data set jws_data = ?, expiration_epoch = ? where username = ? and type = 1", jws, past, u)
 		}
 	case "halflife":
 		// 48 hours pass for this user's record: every signed instant moves that far into the past
 		var jws string
 		var exp int64
 		if st.db.QueryRow("select jws_data, expiration_epoch from expiring_signed_user_data where username = ? and type = 1", u).Scan(&jws, &exp) == nil {
-			cl := vPayload(jws)
 			const d = 48*3600 + 5
-			for _, k := range []string{"exp", "iat", "nbf"} {
-				if v, ok := cl[k].(int64); ok {
-					cl[k] = v - d
+			// only a record that carries keymaster's own signature is re-signed with moved instants; a tampered one
+			// stays byte for byte what the attacker wrote (time travel must not legitimise it)
+			_, verr := st.getStorageDataFromStorageStringDataJWT(jws)
+			if verr == nil || strings.Contains(verr.Error(), "invalid JWT values") {
+				cl := vPayload(jws)
+				for _, k := range []string{"exp", "iat", "nbf"} {
+					if v, ok := cl[k].(int64); ok {
+						cl[k] = v - d
+					}
 				}
+				jws = vResign("ours", cl)
 			}
-			st.db.Exec("update expiring_signed_user_data set jws_data = ?, expiration_epoch = ? where username = ? and type = 1", vResign("ours", cl), exp-d, u)
+			st.db.Exec("update expiring_signed_user_data set jws_data = ?, expiration_epoch = ? where username = ? and type = 1", jws, exp-d, u)
 		}
 	case "tamper":
 		var jws string
